@@ -4,7 +4,8 @@
    transactions of Structure.v). *)
 From Coq Require Import ZArith QArith List.
 From Basana Require Import Num.DecQ Exchange.Model Exchange.AcctProofs Exchange.StepProofs Exchange.OpProofs
-     Exchange.Prims Exchange.Structure Exchange.LedgerProofs.
+     Exchange.Prims Exchange.Structure Exchange.LedgerProofs
+     Exchange.Reconfig Exchange.ReconfigProofs.
 Import ListNotations.
 Open Scope Q_scope.
 
@@ -68,3 +69,11 @@ Example C02_loans_nonvacuous :
   let s := run c (init_st [(2%positive, 1000)]) ops in
   cfg_ok c /\ ops_ok ops /\ Qeq_bool (lsum 2%positive s) 30 = true /\ Qeq_bool (vget (bor (s_acct s)) 2%positive) 30 = true.
 Proof. cbv zeta. split; [exact I|]. split; [repeat constructor; cbn; discriminate|]. vm_compute. split; reflexivity. Qed.
+
+(* borrowed = open principal (and hold = reservations) along histories with precision changes anywhere *)
+Theorem C02_borrowed_is_open_principal_under_reconfiguration : forall c initial xs x,
+  cfg_ok c -> xops_ok xs -> (forall kv, In kv initial -> 0 <= snd kv) ->
+  let s := snd (xrun (c, init_st initial) xs) in
+  vget (bor (s_acct s)) x == lsum x s /\ vget (hold (s_acct s)) x == hsum x s.
+Proof. exact loans_holds_reachable_reconf. Qed.
+Print Assumptions C02_borrowed_is_open_principal_under_reconfiguration.
